@@ -26,7 +26,8 @@ var allBuiltins = strings.Fields(`* + - / < <= = > >= apply assert assoc assoc-i
  go-error hash-map hash-map-decode hash-set json-decode json-encode keys keyword keyword? list list? macro? map map? merge meta new-atom new-error
  new-future-call new-go-error nil? nth number? panic pr-str range read-string rename-keys reset! rest seq sequential? set set? sleep slurp split str
  str2binary string? subvec swap! symbol symbol? take take-last throw time-ms time-ns true? type? unbase64 unwrap-error update update-in uuid vals vec
- vector vector? version with-meta not inc dec reduce gensym memoize identity some every? partition str-join`)
+ vector vector? version with-meta not inc dec reduce gensym memoize identity some every? partition str-join
+ emb-c0 emb-c1 emb-c2 emb-n0 emb-n1 emb-n2 emb-cv0 emb-cv1 emb-c00 emb-bug-c0 emb-bug-c1 emb-bug-n0 emb-bug-c2`)
 
 var npArgs = []string{
 	"nil", "1", "\"s\"", ":k", "(quote sym)", "()", "(quote (1 2))", "[1]", "{}", "{:a 1}", "#{}", "(fn [x] x)",
